@@ -28,7 +28,7 @@ inductive Cap
 inductive WOp
   | add       -- wg.Add(1) inside the worker (not in the unchanged code)
   | pp        -- p.pp.PostProcess(path, content)
-  | write     -- f(path, content)
+  | write     -- f(path, content): the file at `path` becomes exactly `content` (replace, not overlay)
   | send      -- errs <- err      (guarded by err != nil)
   | done      -- wg.Done()
   | release   -- <-processing
